@@ -29,7 +29,7 @@ LEVEL_NOTE = (
 )
 RULE = (
     "Scenario = target {job doc, project doc, cache} x old content {absent, {}, small, 20 KiB} x route {setitem, update, "
-    "reset, clear, nested list append, buffered flush of 1-3 documents, update_cache after adding/removing jobs} x threading "
+    "reset, whole-document assignment (job.doc = m / project.document = m), clear, nested list append, buffered flush of 1-3 documents, update_cache after adding/removing jobs} x threading "
     "support {on, off}. Enumerated inside: crash before each mutating step, torn prefixes {0,1,mid,len-1}+drawn per write "
     "chunk, all placements of a reader's steps among the writer's. Non-trivial: crash strictly between 'temp/target opened' "
     "and 'rename done', or a torn prefix; reader step between writer's open and rename; distinct by (scenario, fault point)."
@@ -75,7 +75,7 @@ def cases(draw):
         c["stray_tmp"] = draw(st.integers(0, 2)) == 0
         return c
     c["old"] = draw(docs)
-    route = draw(st.sampled_from(["setitem", "update", "reset", "clear", "list_append", "buffered"]))
+    route = draw(st.sampled_from(["setitem", "update", "reset", "assign", "assign", "clear", "list_append", "buffered"]))
     c["route"] = route
     c["k"] = draw(st.sampled_from(["x", "new"]))
     c["v"] = draw(vals)
@@ -173,7 +173,10 @@ def make_writer(case, root, ids):
         doc()  # load outside the enumerated window
         for o in others:
             o()
+        owners[:] = [job if case["target"] == "jobdoc" else project]
         return project, doc, others
+
+    owners = []
 
     def act(state):
         if case["target"] == "cache":
@@ -187,6 +190,12 @@ def make_writer(case, root, ids):
             doc.update(m)
         elif r == "reset":
             doc.reset(m)
+        elif r == "assign":
+            # whole-document assignment: one logical write, the reader / a crash sees the old or the new document
+            if case.get("k") == "x":
+                owners[0].document = m
+            else:
+                owners[0].doc = m
         elif r == "clear":
             doc.clear()
         elif r == "list_append":
@@ -465,6 +474,8 @@ CONSTRUCTED = [
     {"target": "migration", "threads": True, "torn": [4], "reader": "raw", "with_reader": False, "old": {"x": 1, "l": [1, 2]}, "name": "my project"},
     {"target": "migration", "threads": False, "torn": [9], "reader": "raw", "with_reader": False, "old": None, "name": "proj"},
     {"target": "jobdoc", "threads": True, "torn": [5], "reader": "raw", "with_reader": True, "old": {"x": 1, "l": [1, 2]}, "route": "setitem", "k": "new", "v": "v", "m": {"x": 0}},
+    {"target": "jobdoc", "threads": True, "torn": [4], "reader": "raw", "with_reader": True, "old": {"x": 1, "l": [1, 2]}, "route": "assign", "k": "new", "v": 0, "m": {"y": [1, 2]}},
+    {"target": "projdoc", "threads": True, "torn": [], "reader": "api", "with_reader": True, "old": {"x": "s", "l": [], "n": {"y": 1}}, "route": "assign", "k": "x", "v": 0, "m": {"x": 1.5, "z": "v"}},
     {"target": "jobdoc", "threads": False, "torn": [7], "reader": "api", "with_reader": True, "old": {"big": BIG, "l": [0]}, "route": "reset", "k": "x", "v": 0, "m": {"x": 1.5}},
     {"target": "projdoc", "threads": False, "torn": [], "reader": "raw", "with_reader": False, "old": None, "route": "update", "k": "x", "v": 0, "m": {"y": BIG}},
     {"target": "jobdoc", "threads": True, "torn": [3], "reader": "raw", "with_reader": False, "old": {"x": "s", "l": [], "n": {"y": 1}}, "route": "buffered", "k": "x", "v": [1, 2], "m": {}, "others": [[1, "v"], [2, BIG]]},
